@@ -77,6 +77,9 @@ type missWatch struct {
 	fire  func(name string)
 	fired bool
 	last  time.Time // last handler call: the source is only declared "waiting" once delivery is quiescent
+	// pending (optional): deliveries the handler is still owed before the source can be waiting for `base` — on a
+	// loaded machine the launcher polls for the missing file long before the first handler call
+	pending func(base string) bool
 }
 
 func (w *missWatch) touch() {
@@ -109,11 +112,15 @@ func mergedStore(bundles []fsBundle, w *missWatch) *dstore.MockStore {
 				w.Unlock()
 				if !already {
 					go func() { // the launcher runs ahead of delivery: wait until nothing was delivered for a while
+						began := time.Now()
 						for {
 							time.Sleep(5 * time.Millisecond)
 							w.Lock()
 							quiet := time.Since(w.last) > 40*time.Millisecond
 							w.Unlock()
+							if quiet && w.pending != nil && w.pending(base) && time.Since(began) < 5*time.Second {
+								continue // blocks of files already queued have not reached the handler yet
+							}
 							if quiet {
 								w.fire(base)
 								return
@@ -200,6 +207,25 @@ func runFileSrcCase(o *Out, c fsCase) {
 	store := mergedStore(c.bundles, w)
 	calls := 0
 	var mu sync.Mutex
+	w.pending = func(base string) bool {
+		var missing uint64
+		fmt.Sscan(strings.TrimLeft(base, "0")+"", &missing)
+		lowStart := c.start - c.start%c.bs
+		owed := 0
+		for _, bu := range c.bundles {
+			if bu.base >= missing || bu.base < lowStart {
+				continue
+			}
+			for _, b := range bu.blocks {
+				if b.Num >= c.start && b.Num >= bu.base {
+					owed++
+				}
+			}
+		}
+		mu.Lock()
+		defer mu.Unlock()
+		return calls < owed
+	}
 	h := bstream.HandlerFunc(func(blk *pbbstream.Block, obj interface{}) error {
 		mu.Lock()
 		defer mu.Unlock()
